@@ -4,6 +4,7 @@
 package rewrite
 
 import (
+	"reflect"
 	"bytes"
 	"fmt"
 	"go/ast"
@@ -36,6 +37,15 @@ var importMap = map[string][2]string{
 // redirected to vnet (they dial or listen).
 var NetFiles = map[string]bool{
 	"proc/internal/net/conn.go": true,
+	"proc/tcp/proc.go":          true, // type assertions on *net.TCPConn (socket options)
+}
+
+// RacyFields lists struct fields ("Type.field") that the code reads and writes without synchronisation on
+// purpose (e.g. the slot table: "it's safe in x86-64 platform"). A scheduling point is put in front of every
+// statement that touches one of them (in front of the whole loop when the access is inside a loop), so that
+// other threads can run between two such statements although no synchronisation operation separates them.
+var RacyFields = map[string]bool{
+	"upstream.slots": true,
 }
 
 // Result of instrumenting one package.
@@ -92,6 +102,7 @@ type rewriter struct {
 	file      *ast.File
 	rel       string
 	stats     map[string]int
+	racyStmts map[ast.Stmt]string
 	skip      map[ast.Node]bool
 	needSched bool
 	tmp       int
@@ -171,9 +182,128 @@ func pureExpr(e ast.Expr) bool {
 	return false
 }
 
+// racyName returns "Type.field" when sel selects a listed racy field.
+func (r *rewriter) racyName(sel *ast.SelectorExpr) string {
+	s, ok := r.info.Selections[sel]
+	if !ok || s.Kind() != types.FieldVal {
+		return ""
+	}
+	t := s.Recv()
+	if p, ok := t.Underlying().(*types.Pointer); ok {
+		t = p.Elem()
+	}
+	if p, ok := t.(*types.Pointer); ok {
+		t = p.Elem()
+	}
+	n, ok := t.(*types.Named)
+	if !ok {
+		return ""
+	}
+	name := n.Obj().Name() + "." + sel.Sel.Name
+	if RacyFields[name] {
+		return name
+	}
+	return ""
+}
+
+// touchesRacy reports the first listed field accessed inside n (function literals excluded).
+func (r *rewriter) touchesRacy(n ast.Node) string {
+	found := ""
+	if n == nil || reflect.ValueOf(n).IsNil() {
+		return ""
+	}
+	ast.Inspect(n, func(x ast.Node) bool {
+		if found != "" {
+			return false
+		}
+		switch v := x.(type) {
+		case *ast.FuncLit:
+			return false
+		case *ast.SelectorExpr:
+			found = r.racyName(v)
+		}
+		return true
+	})
+	return found
+}
+
+// markRacy records the statements of a function body that get an access point in front of them.
+func (r *rewriter) markRacy(list []ast.Stmt) {
+	for _, st := range list {
+		switch v := st.(type) {
+		case *ast.BlockStmt:
+			r.markRacy(v.List)
+		case *ast.LabeledStmt:
+			r.markRacy([]ast.Stmt{v.Stmt})
+		case *ast.ForStmt, *ast.RangeStmt:
+			if n := r.touchesRacy(st); n != "" {
+				r.racyStmts[st] = n
+			}
+		case *ast.IfStmt:
+			name := ""
+			for cur := v; cur != nil; {
+				if name == "" {
+					name = r.touchesRacy(cur.Init)
+				}
+				if name == "" {
+					name = r.touchesRacy(cur.Cond)
+				}
+				r.markRacy(cur.Body.List)
+				switch e := cur.Else.(type) {
+				case *ast.IfStmt:
+					cur = e
+				case *ast.BlockStmt:
+					r.markRacy(e.List)
+					cur = nil
+				default:
+					cur = nil
+				}
+			}
+			if name != "" {
+				r.racyStmts[st] = name
+			}
+		case *ast.SwitchStmt:
+			name := r.touchesRacy(v.Init)
+			if name == "" {
+				name = r.touchesRacy(v.Tag)
+			}
+			if name != "" {
+				r.racyStmts[st] = name
+			}
+			for _, cl := range v.Body.List {
+				r.markRacy(cl.(*ast.CaseClause).Body)
+			}
+		case *ast.TypeSwitchStmt:
+			for _, cl := range v.Body.List {
+				r.markRacy(cl.(*ast.CaseClause).Body)
+			}
+		case *ast.SelectStmt:
+			for _, cl := range v.Body.List {
+				r.markRacy(cl.(*ast.CommClause).Body)
+			}
+		default:
+			if n := r.touchesRacy(st); n != "" {
+				r.racyStmts[st] = n
+			}
+		}
+	}
+}
+
 func (r *rewriter) run() ([]byte, error) {
 	r.skip = map[ast.Node]bool{}
+	r.racyStmts = map[ast.Stmt]string{}
 	f := r.file
+	ast.Inspect(f, func(x ast.Node) bool {
+		switch v := x.(type) {
+		case *ast.FuncDecl:
+			if v.Body != nil {
+				r.markRacy(v.Body.List)
+			}
+		case *ast.FuncLit:
+			r.markRacy(v.Body.List)
+		}
+		return true
+	})
 
 	// imports
 	for _, imp := range f.Imports {
@@ -214,9 +344,41 @@ func (r *rewriter) run() ([]byte, error) {
 		if r.err != nil {
 			return false
 		}
+		if st, ok := c.Node().(ast.Stmt); ok {
+			if name, ok := r.racyStmts[st]; ok && c.Index() >= 0 {
+				delete(r.racyStmts, st)
+				r.needSched = true
+				r.stats["racy-access"]++
+				c.InsertBefore(&ast.ExprStmt{X: call(schedSel("Access"), &ast.BasicLit{Kind: token.STRING, Value: strconv.Quote(name)})})
+			}
+		}
 		switch n := c.Node().(type) {
 		case *ast.GoStmt:
 			c.Replace(r.rewriteGo(n))
+		case *ast.AssignStmt:
+			// m[k] = v with a pointer, interface or channel key: give k its identity now, so that a later
+			// iteration over m is ordered by insertion (the address of k is not stable between executions)
+			if r.skip[n] || n.Tok != token.ASSIGN || len(n.Lhs) != 1 {
+				return true
+			}
+			ix, ok := n.Lhs[0].(*ast.IndexExpr)
+			if !ok || !r.isMap(ix.X) || !pureExpr(ix.Index) {
+				return true
+			}
+			mt := r.info.TypeOf(ix.X).Underlying().(*types.Map)
+			switch mt.Key().Underlying().(type) {
+			case *types.Pointer, *types.Interface, *types.Chan:
+			default:
+				return true
+			}
+			switch c.Parent().(type) {
+			case *ast.BlockStmt, *ast.CaseClause, *ast.CommClause:
+			default:
+				return true
+			}
+			r.needSched = true
+			r.stats["mapkey"]++
+			c.Replace(&ast.BlockStmt{List: []ast.Stmt{&ast.ExprStmt{X: call(schedSel("Touch"), ix.Index)}, n}})
 		case *ast.SendStmt:
 			if r.skip[n] {
 				return true
@@ -230,13 +392,14 @@ func (r *rewriter) run() ([]byte, error) {
 				return false
 			}
 			if pureExpr(n.Chan) {
-				c.Replace(&ast.BlockStmt{List: []ast.Stmt{&ast.ExprStmt{X: call(schedSel("SendPt"), n.Chan)}, &ast.SendStmt{Chan: n.Chan, Value: n.Value}}})
+				c.Replace(&ast.BlockStmt{List: []ast.Stmt{&ast.ExprStmt{X: call(schedSel("SendPt"), n.Chan)}, &ast.SendStmt{Chan: n.Chan, Value: n.Value}, &ast.ExprStmt{X: call(schedSel("PostSend"))}}})
 			} else {
 				cv := ast.NewIdent(r.name("c"))
 				c.Replace(&ast.BlockStmt{List: []ast.Stmt{
 					&ast.AssignStmt{Lhs: []ast.Expr{cv}, Tok: token.DEFINE, Rhs: []ast.Expr{n.Chan}},
 					&ast.ExprStmt{X: call(schedSel("SendPt"), cv)},
-					&ast.SendStmt{Chan: cv, Value: n.Value}}})
+					&ast.SendStmt{Chan: cv, Value: n.Value},
+					&ast.ExprStmt{X: call(schedSel("PostSend"))}}})
 			}
 		case *ast.UnaryExpr:
 			if n.Op != token.ARROW || r.skip[n] {
